@@ -17,6 +17,8 @@
 #include <type_traits>
 
 #include <dune/common/exceptions.hh>
+#include <dune/common/dynmatrix.hh>
+#include <dune/common/dynvector.hh>
 #include <dune/common/fmatrix.hh>
 #include <dune/common/fvector.hh>
 #include <dune/common/math.hh>
@@ -302,6 +304,9 @@ template <class V> struct Kern {
     V r; bool ok = false;
     if (form == 0) { const V x = ld(a), y = ld(b); ok = op < SHL ? applyArithNoShift<T, V>(op, x, y, r) : applyShift<T, V>(op, x, y, r); }
     else if (form == 1) { const V x = ld(a); const T s = b[0]; ok = op < SHL ? applyArithNoShift<T, V>(op, x, s, r) : applyShift<T, V>(op, x, s, r); }
+    else if (form >= 3) {   // x OP lane(k, x): the scalar operand is a reference to a lane of the vector operand
+      if constexpr (!IsNested<V>::value) { const V x = ld(a); const T& s = Simd::lane(form - 3, x); ok = op < SHL ? applyArithNoShift<T, V>(op, x, s, r) : applyShift<T, V>(op, x, s, r); }
+    }
     else if (op < SHL) { const T s = a[0]; const V y = ld(b); ok = applyArithNoShift<T, V>(op, s, y, r); }
     if (ok) st(r, out);
     return ok;
@@ -310,6 +315,9 @@ template <class V> struct Kern {
     M r; bool ok = false;
     if (form == 0) { const V x = ld(a), y = ld(b); ok = op < LAND ? applyCompare<T, M>(op, x, y, r) : applyLogic<T, M>(op, x, y, r); }
     else if (form == 1) { const V x = ld(a); const T s = b[0]; ok = op < LAND ? applyCompare<T, M>(op, x, s, r) : applyLogic<T, M>(op, x, s, r); }
+    else if (form >= 3) {
+      if constexpr (!IsNested<V>::value) { const V x = ld(a); const T& s = Simd::lane(form - 3, x); ok = op < LAND ? applyCompare<T, M>(op, x, s, r) : applyLogic<T, M>(op, x, s, r); }
+    }
     else {
       const T s = a[0]; const V y = ld(b);
       if (op < LAND) ok = applyCompare<T, M>(op, s, y, r);
@@ -433,8 +441,37 @@ Result execOps(const std::vector<std::string>& w) {
     const std::string& form = w.at(3);
     int f = form == "vv" ? 0 : form == "vs" ? 1 : form == "sv" ? 2 : form == "va" ? 3 : -1;
     const int op = opCode(w.at(4));
-    if (f < 0 || op < 0 || (kind == "asg" && (f == 2 || op >= LT)) || (kind == "bin" && f == 3)) return noSuchOp();
+    if (f < 0 || op < 0 || (kind == "asg" && (f == 2 || op >= LT))) return noSuchOp();
+    if (kind == "bin" && f == 3 && K->nested) { res.impl = "bad-op"; res.oracle = "ok trivial"; return res; }
     Buf<T> a = parseLanes<T>(f == 2 ? "[" + w.at(5) + "]" : w.at(5), f == 2 ? 1 : n);
+    if (kind == "bin" && f == 3) {
+      // bin T shape va op [a] k : a OP lane(k, a) (out of place)
+      const std::size_t k = std::stoul(w.at(6));
+      if (k >= n) { res.impl = "bad-op"; res.oracle = "ok trivial"; return res; }
+      const T s0 = a[k];
+      for (std::size_t i = 0; i < n; ++i) if (!validBin<T>(opNames[op], a[i], s0)) return invalidInput();
+      Buf<T> dummy(1);
+      if (!isMaskOp(op)) {
+        Buf<T> out(n);
+        if (!K->arith(3 + (int)k, op, a.data(), dummy.data(), out.data())) return noSuchOp();
+        res.impl = showLanes(out.data(), n);
+        for (std::size_t i = 0; i < n; ++i) {
+          T e{};
+          if (op < SHL) applyArithNoShift<T, T>(op, a[i], s0, e); else applyShift<T, T>(op, a[i], s0, e);
+          if (!Cod<T>::same(out[i], e)) laneMismatch(res, i, out[i], e, "the scalar operation");
+        }
+      } else {
+        BoolBuf out(n);
+        if (!K->mask(3 + (int)k, op, a.data(), dummy.data(), out.data())) return noSuchOp();
+        res.impl = showLanes(out.data(), n);
+        for (std::size_t i = 0; i < n; ++i) {
+          bool e = false;
+          if (op < LAND) applyCompare<T, bool>(op, a[i], s0, e); else applyLogic<T, bool>(op, a[i], s0, e);
+          if (out[i] != e) laneMismatch(res, i, out[i], e, "the scalar operation");
+        }
+      }
+      return res;
+    }
     if (f == 3) {
       // asg T shape va op [a] k : a OP= lane(k, a); as the scalar is taken by value this is a OP= (the old value of lane k)
       const std::size_t k = std::stoul(w.at(6));
@@ -992,6 +1029,74 @@ Result execFVec(const std::string& what, const std::vector<std::string>& tv, con
   return noSuchOp();
 }
 
+// the same algorithms through DynamicMatrix / DynamicVector (run-time size: the n = 1, 2, 3 closed forms are run-time branches)
+template <class V>
+Result execDMat(const std::string& what, int n, bool piv, const std::vector<std::string>& ta, const std::vector<std::string>& tb) {
+  using T = ScalarOf<V>;
+  constexpr std::size_t S = RawT<V>::n;
+  Result res;
+  Dune::DynamicMatrix<V> A(n, n);
+  std::array<Dune::DynamicMatrix<T>, S> a;
+  for (auto& m : a) m.resize(n, n);
+  loadMat<V>(ta, n, n, A, a);
+  LaneCmp<V> cmp{res, what};
+  if (what == "det") {
+    V d = A.determinant(piv);
+    res.impl = "[" + showLanesOf(d) + "]";
+    for (std::size_t l = 0; l < S; ++l) cmp(d, l, a[l].determinant(piv), "result");
+    return res;
+  }
+  if (what == "solve" || what == "mv") {
+    Dune::DynamicVector<V> b(n), x(n);
+    std::array<Dune::DynamicVector<T>, S> bs, xs;
+    for (auto& v : bs) v.resize(n);
+    for (auto& v : xs) v.resize(n);
+    loadVec<V>(tb, n, b, bs);
+    if (what == "mv") {
+      A.mv(b, x);
+      res.impl = showVecOf<V>(x, n);
+      for (std::size_t l = 0; l < S; ++l) { a[l].mv(bs[l], xs[l]); for (int i = 0; i < n; ++i) cmp(x[i], l, xs[l][i], "y[" + std::to_string(i) + "]"); }
+      return res;
+    }
+    bool threw = false, anyThrow = false;
+    try { A.solve(x, b, piv); } catch (Dune::FMatrixError&) { threw = true; }
+    for (std::size_t l = 0; l < S; ++l) { try { a[l].solve(xs[l], bs[l], piv); } catch (Dune::FMatrixError&) { anyThrow = true; } }
+    if (threw) {
+      res.impl = "ERR:FMatrix";
+      if (!anyThrow) res.oracle = "FAIL solve reports a singular matrix although the scalar algorithm succeeds in every lane";
+      return res;
+    }
+    res.impl = showVecOf<V>(x, n);
+    if (anyThrow) { res.oracle = "FAIL solve succeeds although the scalar algorithm reports a singular matrix in some lane"; return res; }
+    for (int i = 0; i < n; ++i) for (std::size_t l = 0; l < S; ++l) cmp(x[i], l, xs[l][i], "x[" + std::to_string(i) + "]");
+    return res;
+  }
+  if (what == "inv") {
+    auto Ai = A;
+    auto ai = a;
+    bool threw = false, anyThrow = false;
+    try { Ai.invert(piv); } catch (Dune::FMatrixError&) { threw = true; }
+    for (std::size_t l = 0; l < S; ++l) { try { ai[l].invert(piv); } catch (Dune::FMatrixError&) { anyThrow = true; } }
+    if (threw) {
+      res.impl = "ERR:FMatrix";
+      if (!anyThrow) res.oracle = "FAIL invert reports a singular matrix although the scalar algorithm succeeds in every lane";
+      return res;
+    }
+    res.impl = showMatOf<V>(Ai, n, n);
+    if (anyThrow) { res.oracle = "FAIL invert succeeds although the scalar algorithm reports a singular matrix in some lane"; return res; }
+    for (int i = 0; i < n; ++i) for (int j = 0; j < n; ++j) for (std::size_t l = 0; l < S; ++l)
+      cmp(Ai[i][j], l, ai[l][i][j], "entry[" + std::to_string(i) + "][" + std::to_string(j) + "]");
+    return res;
+  }
+  if (what == "fnorm2" || what == "infnorm") {
+    V r = what == "fnorm2" ? A.frobenius_norm2() : A.infinity_norm();
+    res.impl = "[" + showLanesOf(r) + "]";
+    for (std::size_t l = 0; l < S; ++l) cmp(r, l, what == "fnorm2" ? a[l].frobenius_norm2() : a[l].infinity_norm(), "result");
+    return res;
+  }
+  return noSuchOp();
+}
+
 static Result badOp() { Result r; r.impl = "bad-op"; r.oracle = "ok trivial"; return r; }
 
 // the (shape, size) combinations that are instantiated; the generator draws from the same tables
@@ -1334,6 +1439,22 @@ static Result exec(const std::string& line) {
     if (r.impl == "ERR:FMatrix") stat("mat_singular_reported");
     return r;
   }
+  if (kind == "dmat") {
+    // dmat <what> <shape> <n> <piv> <A> [<b>]   DynamicMatrix<LoopSIMD<double,S>>, S in {2,4}, n = 1..8
+    const std::string& what = w.at(1);
+    const std::string& shape = w.at(2);
+    const int n = std::stoi(w.at(3));
+    const bool piv = w.at(4) == "1";
+    auto ta = listToks(w.at(5));
+    std::vector<std::string> tb;
+    if (w.size() > 6) tb = listToks(w[6]);
+    if (n < 1 || n > 8) return badOp();
+    stat("dmat_" + what);
+    stat("dmat_n" + std::to_string(n));
+    Result r = shape == "2" ? execDMat<LoopSIMD<double, 2>>(what, n, piv, ta, tb) : shape == "4" ? execDMat<LoopSIMD<double, 4>>(what, n, piv, ta, tb) : badOp();
+    if (r.impl == "ERR:FMatrix") stat("mat_singular_reported");
+    return r;
+  }
   if (kind == "rect") {
     // rect <what> <shape> <r> <c> <A> [<x> <y> <alpha>]
     RectArgs m;
@@ -1589,7 +1710,10 @@ static std::string genMat(Rng& rng, const Args& a) {
   static const std::vector<std::string> shapes = {"1", "2", "2", "3", "4", "4", "8", "2x2", "2x2", "f4"};
   const std::string shape = rng.pick(shapes);
   const int S = (int)shapeLanesM(shape);
-  const std::vector<int>& sizes = matTable().at(shape);
+  std::vector<int> sizes = matTable().at(shape);
+  // DynamicMatrix instead of FieldMatrix (run-time sizes 1..8)
+  const bool dyn = (shape == "2" || shape == "4") && what != "mm" && what != "lmm" && rng.coin(1, 6);
+  if (dyn) sizes = {1, 2, 3, 4, 5, 6, 7, 8};
   int n = rng.pick(sizes);
   if ((what == "det" || what == "solve" || what == "inv") && rng.coin(2, 3)) {  // prefer the LU path
     std::vector<int> big;
@@ -1621,6 +1745,7 @@ static std::string genMat(Rng& rng, const Args& a) {
     stat("matrix_with_nonfinite_entry");
   }
   std::string line = "mat " + what + " " + shape + " " + std::to_string(n) + " " + (piv ? "1" : "0") + " " + listStr(ta);
+  if (dyn) line = "d" + line;
   if (what == "solve" || what == "mv") line += " " + genSmallLanes(rng, (std::size_t)n * S);
   else if (what == "mm" || what == "lmm") line += " " + genSmallLanes(rng, (std::size_t)n * n * S);
   (void)a;
@@ -1741,6 +1866,8 @@ static std::string propose(Rng& rng, const Args& a) {
     if ((op == "shl" || op == "shr") && form == "sv") form = "vs";
     int fa = 0, fb = 0;
     if (isInt) { if ((op == "add" || op == "sub" || op == "mul") && (T == "i32" || T == "i64")) { if (rng.coin(3, 4)) fa = fb = 1; } if (op == "shl" || op == "shr") { fb = 2; if (op == "shl" && T != "u32") fa = 1; } }
+    if (form == "vs" && shape.find('x') == std::string::npos && op != "max" && rng.coin(1, 6))   // the scalar is a lane of the vector operand
+      return "bin" + head + "va " + op + " " + genVec(rng, T, n, (op == "shl" || op == "shr") ? 2 : fa) + " " + std::to_string(rng.below(n));
     std::string A = form == "sv" ? genScalar(rng, T, fa) : genVec(rng, T, n, fa);
     std::string B = form == "vs" ? genScalar(rng, T, fb) : genVec(rng, T, n, fb);
     if (form == "vv" && rng.coin(1, 6)) B = A;  // equal operands
